@@ -146,7 +146,7 @@ def run(check: Check):
     muts = [(mu, classify(mu, fi)) for mu in pa.mutations(fi)]
     bad = [(mu, w) for mu, w in muts if w]
     for mu, w in bad:
-      check.ob('R-PURE', fi, mu.construct, False, f'{mu.how}: {w}', node=mu.node)
+      check.ob('R-PURE', fi, mu.construct, False, f'{mu.how}: {w}', node=mu.node, exact=True)
     if not bad and fi.scope.parent.kind == 'module' and not fi.name.startswith('_'):
       check.ob('R-PURE', fi, f'{fi.qualname}({", ".join(fi.params)})', True, 'no write through parameters',
                nontrivial=False)
